@@ -11,10 +11,11 @@ delegates to a real `numpy.random.Generator`, or - in scripted mode - returns a 
     the conditionals at the drawn index with entry/total (resp. entry^2/total), the returned rows with the draws.
     Since whole conditional vectors are compared at every positive prefix, every multi-index is covered.
   - `chain_random`: the same audit on real draws (m samples from a real generator).
-  - `gof`: protocol-independent fallback, empirical frequencies of 4000 / 20000 real draws within 7 binomial
+  - `gof` (C14.sample.gof / C14.sample_square.gof): protocol-independent fallback, empirical frequencies of 4000 / 20000 real draws within 7 binomial
     sigmas of the dense distribution for every multi-index.
   - tensors with <= 24 entries (quick) / <= 120 (thorough), d = 2..6, ranks 1..3, zeros allowed.
-* sample_square: `runs` (the call returns at all - known defect of the pinned tree under NumPy >= 2.5: every
+* sample_square (every clause about it is named C14.sample_square.*, so that on the pinned tree exactly these
+  fail): `runs` (the call returns at all - known defect of the pinned tree under NumPy >= 2.5: every
   input raises), `unique` (distinct rows, all of positive probability, requested count).
 * all samplers: integer dtype (sample_rand_poi: float points inside the box), shape (m, d), bounds, int / float m,
   list / ndarray n, int seed and Generator seed.
@@ -248,10 +249,7 @@ def sample_square_unique(n, r, seed, m, genobj):
     return PASS
 
 
-@clause('C14.gof', funcs=('sample.sample', 'sample.sample_square'))
-def gof(fn, n, r, seed, m):
-    """Protocol-independent fallback: empirical frequency of every multi-index within 7 binomial sigmas (+1/m) of
-    weight/total for m real draws with an integer seed."""
+def _gof(fn, n, r, seed, m):
     square = fn == 'sample_square'
     Y, W, total = _tensor(n, r, seed, square)
     if total == 0:
@@ -261,8 +259,8 @@ def gof(fn, n, r, seed, m):
     except Exception as e:
         return FAIL(f'{fn} raised {type(e).__name__}: {str(e)[:200]}'
                     + (' (see clause C14.sample_square.runs)' if square else ''))
-    if I.shape != (m, len(n)):
-        return FAIL(f'shape {I.shape}')
+    if I.shape != (m, len(n)) or I.dtype.kind not in 'iu':
+        return FAIL(f'shape {I.shape} dtype {I.dtype}')
     cnt = np.zeros(W.shape)
     np.add.at(cnt, tuple(I.T), 1)
     P = W / total
@@ -274,15 +272,38 @@ def gof(fn, n, r, seed, m):
     return PASS
 
 
+@clause('C14.sample.gof', funcs=('sample.sample',))
+def sample_gof(n, r, seed, m):
+    """Protocol-independent fallback: empirical frequency of every multi-index within 7 binomial sigmas (+1/m) of
+    entry/total for m real draws of `sample` with an integer seed."""
+    return _gof('sample', n, r, seed, m)
+
+
+@clause('C14.sample_square.gof', funcs=('sample.sample_square',))
+def sample_square_gof(n, r, seed, m):
+    """The same fallback for sample_square(unique=False) and squared entries."""
+    return _gof('sample_square', n, r, seed, m)
+
+
 SAMPLERS = ('sample', 'sample_square', 'sample_square_unique', 'sample_lhs', 'sample_rand', 'sample_rand_poi',
             'sample_tt')
 
 
-@clause('C14.samplers.shape_bounds', funcs=('sample.sample', 'sample.sample_square', 'sample.sample_lhs',
-                                            'sample.sample_rand', 'sample.sample_rand_poi', 'sample.sample_tt'))
+@clause('C14.samplers.shape_bounds', funcs=('sample.sample', 'sample.sample_lhs', 'sample.sample_rand',
+                                            'sample.sample_rand_poi', 'sample.sample_tt'))
 def shape_bounds(fn, n, m, seed, genobj, forms):
-    """Every sampler: integer array (sample_rand_poi: float points in the box) of shape (m, d) (sample_tt: rows of
-    length d) with column k inside [0, n_k); m may be int or float, n list or ndarray (forms=1)."""
+    """Every sampler except sample_square: integer array (sample_rand_poi: float points in the box) of shape (m, d)
+    (sample_tt: rows of length d) with column k inside [0, n_k); m may be int or float, n list or ndarray (forms=1)."""
+    return _shape_bounds(fn, n, m, seed, genobj, forms)
+
+
+@clause('C14.sample_square.shape_bounds', funcs=('sample.sample_square',))
+def sample_square_shape_bounds(fn, n, m, seed, genobj, forms):
+    """sample_square (fn = sample_square | sample_square_unique): integer array of shape (m, d) inside the bounds."""
+    return _shape_bounds(fn, n, m, seed, genobj, forms)
+
+
+def _shape_bounds(fn, n, m, seed, genobj, forms):
     d = len(n)
     sd = np.random.default_rng(seed) if genobj else seed
     nn = np.array(n) if forms else list(n)
@@ -431,16 +452,16 @@ def cases(tier, seed):
     shapes = SHAPES_Q + (SHAPES_T if big else [])
     for n in shapes:
         for r in (1, 2, 3):
-            for rep in range(3 if big else 2):
+            for rep in range(4 if big else 2):
                 yield 'C14.sample.chain', dict(n=n, r=r, seed=rs(), unsert=[None, 0.0, 1e-10][rep % 3])
                 yield 'C14.sample_square.chain', dict(n=n, r=r, seed=rs())
-            yield 'C14.sample.chain_random', dict(n=n, r=r, seed=rs(), m=200 if big else 60)
-            yield 'C14.sample_square.chain_random', dict(n=n, r=r, seed=rs(), m=200 if big else 60)
+            yield 'C14.sample.chain_random', dict(n=n, r=r, seed=rs(), m=400 if big else 60)
+            yield 'C14.sample_square.chain_random', dict(n=n, r=r, seed=rs(), m=400 if big else 60)
             yield 'C14.sample_square.unique', dict(n=n, r=r, seed=rs(), m=[1, 3, 8][r - 1], genobj=bool(r % 2))
     for n in ([2, 3], [2, 2, 2], [3, 1, 4], [2, 2, 2, 3]) + (([4, 5, 6], [2] * 6) if big else ()):
         for r in (1, 2, 3):
-            for fn in ('sample', 'sample_square'):
-                yield 'C14.gof', dict(fn=fn, n=n, r=r, seed=rs(), m=20000 if big else 4000)
+            for cid in ('C14.sample.gof', 'C14.sample_square.gof'):
+                yield cid, dict(n=n, r=r, seed=rs(), m=20000 if big else 4000)
     for n, r in (([3, 4], 2), ([2, 2, 2], 1), ([5, 3, 4, 2], 3)):
         for unique in (False, True):
             yield 'C14.sample_square.runs', dict(n=n, r=r, seed=rs(), unique=unique, m=3)
@@ -450,7 +471,8 @@ def cases(tier, seed):
                 for forms in (0, 1):
                     if fn == 'sample_tt' and m > 5:
                         continue
-                    yield 'C14.samplers.shape_bounds', dict(fn=fn, n=n, m=m, seed=rs(), genobj=bool((m + forms) % 2),
+                    yield ('C14.sample_square.shape_bounds' if fn.startswith('sample_square') else
+                           'C14.samplers.shape_bounds'), dict(fn=fn, n=n, m=m, seed=rs(), genobj=bool((m + forms) % 2),
                                                             forms=forms)
     for n in ([1], [2], [3], [5], [9], [2, 3], [7, 4, 1], [6, 6], [2, 5, 3, 8]):
         for rep in range(4 if big else 1):
